@@ -337,7 +337,7 @@ def render_program(idx, p, names):
         for m in methods:
             if m.kind == "query":
                 rt = "EchoResp" if m.ret == "echo" else p.concretize(m.args[0].ty, iface).rust()
-                decl.append('("%s", serde_json::to_value(&schemars::schema_for!(%s)).unwrap())' % (m.name, rt))
+                decl.append('("%s", serde_json::to_value(&svfw::cw_schema::schema_for!(%s)).unwrap())' % (m.name, rt))
         w('    out.insert("%s.declared".to_string(), json!([%s]));' % (part, ", ".join("[%s.0, %s.1]" % (d, d) for d in decl)))
     w('    out.insert("wrapper".to_string(), serde_json::to_value(&<C as ContractApi>::ContractQuery::response_schemas().map_err(|e| e.to_string())).unwrap());')
     w('    out.insert("wrapper_schema".to_string(), serde_json::to_value(&schemars::schema_for!(<C as ContractApi>::ContractQuery)).unwrap());')
@@ -441,9 +441,10 @@ def _ctor_map(lines, methods, prefix):
 
 
 class Corpus:
-    def __init__(self, progs, tag="corpus"):
+    def __init__(self, progs, tag="corpus", mt=False):
         self.progs = progs
         self.tag = tag
+        self.mt = mt
         self.names = None
         self.exe = None
         self.dir = None
@@ -457,7 +458,8 @@ class Corpus:
         for i, (p, n) in enumerate(zip(self.progs, self.names)):
             if "__rejected" in n:
                 continue
-            srcs["p%d.rs" % i] = render_program(i, p, n)
+            srcs["p%d.rs" % i] = render_program(i, p, n) if not self.mt else \
+                render_program(i, p, n).replace('        "schemas" => schemas(),', '        "schemas" => schemas(),\n        "history" => mt_driver::history(op),') + render_mt(i, p, n)
             mods.append("mod p%d;" % i)
             arms.append("        %d => p%d::run(op)," % (i, i))
         srcs["main.rs"] = MAIN_RS % {"mods": "\n".join(mods), "arms": "\n".join(arms)}
@@ -513,3 +515,145 @@ class Corpus:
     def cleanup(self):
         if self.exe and os.path.exists(self.exe):
             os.unlink(self.exe)
+
+
+# ------------------------------------------------------------------------------------------ multitest histories (C12)
+def render_mt(idx, p, names):
+    """fn history(op): runs one history through the generated proxies on chain A and as raw JSON on chain B."""
+    out = []
+    w = out.append
+    w("pub mod mt_driver {")
+    w("    use super::*;")
+    w("    use svfw::cw_multi_test::{Executor, IntoBech32};")
+    w("    use svfw::cw_std::{coin, Addr, Binary, Coin, CosmosMsg, WasmMsg, WasmQuery, QueryRequest, Empty};")
+    w("    use super::contract::sv::mt::%sProxy;" % p.name)
+    for k, i in enumerate(p.ifaces):
+        w("    use super::%s::sv::mt::%sProxy;" % (i.mod, i.trait))
+    w("    type MtApp = svfw::cw_multi_test::App;")
+    w("    fn mk(users: &[Addr]) -> svfw::multitest::App<MtApp> {")
+    w("        let u = users.to_vec();")
+    w("        svfw::multitest::App::new(svfw::cw_multi_test::App::new(move |router, _api, storage| {")
+    w("            for a in &u { router.bank.init_balance(storage, a, vec![coin(1000, \"uatom\"), coin(1000, \"ujuno\")]).unwrap(); }")
+    w("        }))")
+    w("    }")
+    w("    fn coins(v: &Value) -> Vec<Coin> { serde_json::from_value(v.clone()).unwrap_or_default() }")
+    w("    fn state(app: &svfw::multitest::App<MtApp>, contracts: &[Addr], users: &[Addr]) -> Value {")
+    w("        let a = app.app();")
+    w("        let cs: Vec<Value> = contracts.iter().map(|c| {")
+    w("            let dump: Vec<(String, String)> = a.dump_wasm_raw(c).into_iter().map(|(k, v)| (Binary::from(k).to_base64(), Binary::from(v).to_base64())).collect();")
+    w("            let info = a.contract_data(c).map(|d| format!(\"{:?}\", d)).unwrap_or_else(|e| e.to_string());")
+    w("            let bal = a.wrap().query_all_balances(c).map(|b| format!(\"{:?}\", b)).unwrap_or_default();")
+    w("            json!({\"addr\": c.to_string(), \"storage\": dump, \"info\": info, \"balance\": bal})")
+    w("        }).collect();")
+    w("        let us: Vec<String> = users.iter().map(|u| a.wrap().query_all_balances(u).map(|b| format!(\"{:?}\", b)).unwrap_or_default()).collect();")
+    w("        json!({\"contracts\": cs, \"users\": us})")
+    w("    }")
+    w("    fn raw(app: &svfw::multitest::App<MtApp>, sender: &Addr, msg: WasmMsg) -> Result<svfw::cw_multi_test::AppResponse, String> {")
+    w("        app.app_mut().execute(sender.clone(), CosmosMsg::Wasm(msg)).map_err(|e| e.root_cause().to_string())")
+    w("    }")
+    w("    pub fn history(op: &Value) -> Value {")
+    w("        let users: Vec<Addr> = [\"alice\", \"bob\", \"carol\"].iter().map(|s| s.into_bech32()).collect();")
+    w("        let app_a = mk(&users);")
+    w("        let app_b = mk(&users);")
+    w("        let code_a = super::contract::sv::mt::CodeId::<C, _>::store_code(&app_a);")
+    w("        let code_b = app_b.app_mut().store_code(Box::new(C::new()));")
+    w("        let mut proxies: Vec<svfw::multitest::Proxy<MtApp, C>> = vec![];")
+    w("        let mut addrs_a: Vec<Addr> = vec![];")
+    w("        let mut addrs_b: Vec<Addr> = vec![];")
+    w("        let mut out: Vec<Value> = vec![];")
+    w("        for step in op[\"steps\"].as_array().cloned().unwrap_or_default() {")
+    w("            let args = &step[\"args\"];")
+    w("            let text = step[\"json\"].as_str().unwrap_or(\"\").to_string();")
+    w("            let sender = users[step[\"sender\"].as_u64().unwrap_or(0) as usize % users.len()].clone();")
+    w("            let funds = coins(&step[\"funds\"]);")
+    w("            let target = step[\"target\"].as_u64().unwrap_or(0) as usize;")
+    w("            let kind = step[\"k\"].as_str().unwrap_or(\"\");")
+    w("            let part = step[\"part\"].as_str().unwrap_or(\"contract\");")
+    w("            let method = step[\"method\"].as_str().unwrap_or(\"\");")
+    w("            let (ra, rb): (Value, Value) = match kind {")
+    # ---- instantiate
+    inst = [m for m in p.methods if m.kind == "instantiate"][0]
+    lets = ["let a%d: %s = match arg(args, %d) { Ok(v) => v, Err(e) => { out.push(json!({\"error\": e})); continue; } };" % (ai, p.concretize(a.ty).rust(), ai)
+            for ai, a in enumerate(inst.args)]
+    argl = ", ".join("a%d" % ai for ai in range(len(inst.args)))
+    w("                \"inst\" => {")
+    for l in lets:
+        w("                    " + l)
+    w("                    let label = step[\"label\"].as_str().map(|s| s.to_string());")
+    w("                    let admin = step[\"admin\"].as_u64().map(|i| users[i as usize % users.len()].to_string());")
+    w("                    let salt = step[\"salt\"].as_str().map(|s| s.as_bytes().to_vec());")
+    w("                    let mut b = code_a.instantiate(%s).with_funds(&funds);" % argl)
+    w("                    if let Some(l) = &label { b = b.with_label(l); }")
+    w("                    if let Some(a) = &admin { b = b.with_admin(Some(a.as_str())); }")
+    w("                    if let Some(s) = &salt { b = b.with_salt(Some(s.as_slice())); }")
+    w("                    let ra = match b.call(&sender) { Ok(px) => { let a = px.contract_addr.clone(); addrs_a.push(a.clone()); proxies.push(px); json!({\"ok\": {\"addr\": a.to_string()}}) }, Err(e) => json!({\"err\": e.to_string()}) };")
+    w("                    let lbl = label.clone().unwrap_or_else(|| \"Contract\".to_string());")
+    w("                    let msg = match &salt {")
+    w("                        Some(s) => WasmMsg::Instantiate2 { admin: admin.clone(), code_id: code_b, label: lbl, msg: Binary::from(text.as_bytes()), funds: funds.clone(), salt: Binary::from(s.clone()) },")
+    w("                        None => WasmMsg::Instantiate { admin: admin.clone(), code_id: code_b, msg: Binary::from(text.as_bytes()), funds: funds.clone(), label: lbl },")
+    w("                    };")
+    w("                    let rb = match raw(&app_b, &sender, msg) {")
+    w("                        Ok(r) => match r.data.as_ref().map(|d| svfw::cw_utils::parse_instantiate_response_data(d.as_slice())) {")
+    w("                            Some(Ok(d)) => { let a = Addr::unchecked(d.contract_address); addrs_b.push(a.clone()); json!({\"ok\": {\"addr\": a.to_string()}}) }")
+    w("                            other => json!({\"err\": format!(\"no address in instantiate response: {:?}\", other.is_some())}),")
+    w("                        },")
+    w("                        Err(e) => json!({\"err\": e}),")
+    w("                    };")
+    w("                    (ra, rb)")
+    w("                }")
+    # ---- exec / query / sudo per part & method
+    parts = [("contract", None)] + [("i%d" % k, i) for k, i in enumerate(p.ifaces)]
+    w("                \"exec\" | \"query\" | \"sudo\" => {")
+    w("                    if target >= proxies.len() || target >= addrs_b.len() { out.push(json!({\"skipped\": \"no such contract\"})); continue; }")
+    w("                    let px = &proxies[target];")
+    w("                    let addr_b = addrs_b[target].clone();")
+    w("                    let ra: Value = match (kind, part, method) {")
+    for part, iface in parts:
+        methods = p.methods if iface is None else iface.methods
+        for m in methods:
+            if m.kind not in ("exec", "query", "sudo"):
+                continue
+            lets = ["let a%d: %s = match arg(args, %d) { Ok(v) => v, Err(e) => { out.push(json!({\"error\": e})); continue; } };" % (
+                ai, p.concretize(a.ty, iface).rust(), ai) for ai, a in enumerate(m.args)]
+            argl = ", ".join("a%d" % ai for ai in range(len(m.args)))
+            hname = names[part][m.name]
+            if m.kind == "exec":
+                call = "match px.%s(%s).with_funds(&funds).call(&sender) { Ok(r) => json!({\"ok\": app_resp_obs(&r)}), Err(e) => json!({\"err\": e.to_string()}) }" % (hname, argl)
+            elif m.kind == "query":
+                call = "match px.%s(%s) { Ok(r) => json!({\"ok\": serde_json::to_value(&r).unwrap_or(Value::Null)}), Err(e) => json!({\"err\": e.to_string()}) }" % (hname, argl)
+            else:
+                call = "match px.%s(%s) { Ok(r) => json!({\"ok\": app_resp_obs(&r)}), Err(e) => json!({\"err\": e.to_string()}) }" % (hname, argl)
+            w("                        (\"%s\", \"%s\", \"%s\") => { %s %s }" % (m.kind, part, m.name, " ".join(lets), call))
+    w("                        _ => json!({\"error\": \"no such method\"}),")
+    w("                    };")
+    w("                    let rb: Value = match kind {")
+    w("                        \"exec\" => match raw(&app_b, &sender, WasmMsg::Execute { contract_addr: addr_b.to_string(), msg: Binary::from(text.as_bytes()), funds: funds.clone() }) { Ok(r) => json!({\"ok\": app_resp_obs(&r)}), Err(e) => json!({\"err\": e}) },")
+    w("                        \"query\" => { let req: QueryRequest<Empty> = QueryRequest::Wasm(WasmQuery::Smart { contract_addr: addr_b.to_string(), msg: Binary::from(text.as_bytes()) });")
+    w("                            match app_b.app().wrap().query::<Value>(&req) { Ok(v) => json!({\"ok\": v}), Err(e) => json!({\"err\": e.to_string()}) } }")
+    w("                        _ => match app_b.app_mut().sudo(svfw::cw_multi_test::SudoMsg::Wasm(svfw::cw_multi_test::WasmSudo { contract_addr: addr_b.clone(), message: Binary::from(text.as_bytes()) })) { Ok(r) => json!({\"ok\": app_resp_obs(&r)}), Err(e) => json!({\"err\": e.root_cause().to_string()}) },")
+    w("                    };")
+    w("                    (ra, rb)")
+    w("                }")
+    # ---- migrate
+    mig = [m for m in p.methods if m.kind == "migrate"]
+    if mig:
+        m = mig[0]
+        lets = ["let a%d: %s = match arg(args, %d) { Ok(v) => v, Err(e) => { out.push(json!({\"error\": e})); continue; } };" % (ai, p.concretize(a.ty).rust(), ai)
+                for ai, a in enumerate(m.args)]
+        argl = ", ".join("a%d" % ai for ai in range(len(m.args)))
+        w("                \"migrate\" => {")
+        w("                    if target >= proxies.len() || target >= addrs_b.len() { out.push(json!({\"skipped\": \"no such contract\"})); continue; }")
+        for l in lets:
+            w("                    " + l)
+        w("                    let ra = match proxies[target].%s(%s).call(&sender, code_a.code_id()) { Ok(r) => json!({\"ok\": app_resp_obs(&r)}), Err(e) => json!({\"err\": e.to_string()}) };" % (m.name, argl))
+        w("                    let rb = match raw(&app_b, &sender, WasmMsg::Migrate { contract_addr: addrs_b[target].to_string(), new_code_id: code_b, msg: Binary::from(text.as_bytes()) }) { Ok(r) => json!({\"ok\": app_resp_obs(&r)}), Err(e) => json!({\"err\": e}) };")
+        w("                    (ra, rb)")
+        w("                }")
+    w("                _ => (json!({\"error\": \"bad step\"}), json!({\"error\": \"bad step\"})),")
+    w("            };")
+    w("            out.push(json!({\"a\": ra, \"b\": rb, \"state_a\": state(&app_a, &addrs_a, &users), \"state_b\": state(&app_b, &addrs_b, &users)}));")
+    w("        }")
+    w("        Value::Array(out)")
+    w("    }")
+    w("}")
+    return "\n".join(out) + "\n"
